@@ -73,3 +73,23 @@ package storage
 //@ func parseIndexMetadata
 //@   alloc_bound len(data)
 //@   loop 1 invariant 0 <= i && i <= count && len(entries) == int(count)
+
+// ---- offset assignment (C02) ----
+//@ func NewRecordBatchFromBytes
+//@   ensures [C02.parse_fields] err == nil ==> len(data) >= 61 && result0.BaseOffset == int64(be64(data, 0)) && result0.LastOffsetDelta == int32(be32(data, 23)) && result0.MessageCount == int32(be32(data, 57))
+//@   ensures [C02.delta_nonneg] err == nil ==> result0.LastOffsetDelta >= 0
+//@   ensures [C02.private_copy] err == nil ==> result0.Bytes == data && len(result0.Bytes) >= 61 && base(result0.Bytes) != base(data)
+//@   ensures [C02.short_rejected] len(data) < 61 ==> err != nil
+//@
+//@ func PatchRecordBatchBaseOffset
+//@   requires len(batch.Bytes) >= 8
+//@   ensures [C02.patch_offset] batch.BaseOffset == baseOffset && int64(be64(batch.Bytes, 0)) == baseOffset
+//@   ensures [C02.patch_rest_unchanged] batch.LastOffsetDelta == old(batch.LastOffsetDelta) && batch.MessageCount == old(batch.MessageCount) && len(batch.Bytes) == old(len(batch.Bytes)) && (forall i int :: 8 <= i && i < len(batch.Bytes) ==> batch.Bytes[i] == old(batch.Bytes[i]))
+//@
+//@ func (l *PartitionLog) AppendBatch
+//@   requires batch.LastOffsetDelta >= 0 && len(batch.Bytes) >= 61 && 0 <= l.nextOffset && l.nextOffset <= 4611686018427387904 && l.buffer != nil
+//@   at Append#1 before assert [C02.base_is_next_offset] arg0.BaseOffset == old(l.nextOffset) && int64(be64(arg0.Bytes, 0)) == old(l.nextOffset)
+//@   at Append#1 before assert [C02.contiguous] l.nextOffset == old(l.nextOffset) + int64(old(batch.LastOffsetDelta)) + 1
+//@   at Append#1 before assert [C02.strictly_increasing] l.nextOffset > old(l.nextOffset)
+//@   at ShouldFlush#1 before assert [C02.result_offsets] result.BaseOffset == old(l.nextOffset) && result.LastOffset == old(l.nextOffset) + int64(old(batch.LastOffsetDelta)) && l.nextOffset == result.LastOffset + 1
+//@   at ShouldFlush#1 after stop
